@@ -168,7 +168,8 @@ Proof. intros cfg maxrec sched evs fuel st VAL. exact (c05_view_valid cfg maxrec
 Print Assumptions C05_view_valid.
 
 (* Isolation: one loop iteration is a function of the state and of the schedule returned for the
-   view shown — `apply_schedule` and `tail_phase` do not mention the scheduler — hence two schedulers
+   view shown — `before_schedule` (the regenerated `self._resolve = True` written before the scheduler
+   is called), `apply_schedule` and `tail_phase` do not mention the scheduler — hence two schedulers
    that return the same schedules drive the simulator through the same states.  (That the real
    objects handed to the algorithm are copies is the correspondence's mutating-scheduler run.) *)
 Theorem C05_isolated :
@@ -177,8 +178,9 @@ Theorem C05_isolated :
   bindS N V (events_phase N V stations st) (fun s1 =>
     if Simulator_recompute_cond (iter s1) (last_upd s1) (resolve s1) maxrec then
       match num_view (iter s1) (occ s1) (num s1) with
-      | Err e => ErrS e s1
-      | Ok v => bindS N V (apply_schedule N V Sch num_apply s1 v (sched v)) (tail_phase N V num_charge num_store)
+      | Err e => ErrS e (before_schedule N V s1)
+      | Ok v => bindS N V (apply_schedule N V Sch num_apply (before_schedule N V s1) v (sched v))
+                      (tail_phase N V num_charge num_store)
       end
     else tail_phase N V num_charge num_store s1).
 Proof. exact step_isolated. Qed.
